@@ -536,7 +536,7 @@ def run_cell(g, tab, force, acc, full=False, sampled=False, label=None):
         acc.violation(mech, desc, witness(g, tab, force))
     elif rejected:
         acc.count('validate_rejected_but_nothing_expected')
-    elif label and (acc.evals % 9973 == 1 or len(acc.samples) < 2):
+    elif label and acc.evals % 9973 == 2:
         acc.sample({
             'branches': [b[1] for b in g.w.branches],
             'queue (order of entry)': [
